@@ -1,6 +1,6 @@
 (* family 15: PDU factory and holder (spacepackets/cfdp/pdu/helper.py). *)
 From Coq Require Import ZArith List Bool.
-From SP Require Import Base.Result Base.Bytes Run.Marshal Model.PduHeader Model.FileDirective Model.Factory.
+From SP Require Import Base.Result Base.Bytes Run.Marshal Model.PduHeader Model.FileDirective Model.Factory Model.FactoryOps.
 From SP Require Run.DispHdr Run.DispFileData Run.DispPduA Run.DispPduB Run.DispPduC.
 Import ListNotations.
 Open Scope Z_scope.
@@ -48,6 +48,38 @@ Definition holder_inspect (h : holder) : res args :=
   do d <- holder_pdu_directive_type h;
   Ok [[t]; [b2z b]; opt_z d].
 
+(* ---- operation histories on one holder (op 1521) ---- *)
+Definition holder_op_of (l : list Z) : res holder_op :=
+  match l with
+  | 1 :: _ :: d => Ok (KSet d)
+  | 2 :: _ => Ok KSetNone
+  | 3 :: _ => Ok KInspect
+  | 4 :: _ => Ok KPacketLen
+  | 5 :: _ => Ok KPack
+  | 6 :: k :: _ => Ok (KTo k)
+  | 7 :: _ :: d => Ok (KFileDataSet d)
+  | _ => Err EOther
+  end.
+
+(* what a holder holds: [number of lines] then those lines ([-1] for an empty holder) *)
+Definition holder_state (h : holder) : args :=
+  let f := opt_pdu_fields h in [Z.of_nat (length f)] :: f.
+
+Fixpoint holder_run (h : holder) (ops : list (list Z)) : args :=
+  match ops with
+  | [] => []
+  | l :: r =>
+      match holder_op_of l with
+      | Err e => [1; DispHdr.canon_err e] :: holder_state h ++ [] :: holder_run h r
+      | Ok o =>
+          let '(h', out) := holder_step h o in
+          match out with
+          | Ok v => [0] :: holder_state h' ++ v :: holder_run h' r
+          | Err e => [1; DispHdr.canon_err e] :: holder_state h' ++ [] :: holder_run h' r
+          end
+      end
+  end.
+
 Definition run_factory (op : Z) (a : args) : args :=
   match op with
   (* PduFactory.from_raw(data) *)
@@ -71,6 +103,14 @@ Definition run_factory (op : Z) (a : args) : args :=
                               do r <- holder_inspect (Some p); Ok (r ++ [[holder_packet_len (Some p)]]))
   (* PduHolder(None): to_<class k>_pdu() *)
   | 1509 => ret pdu_fields (holder_to (int 0 0 a) None)
+  (* p1 = from_raw(data1); p2 = from_raw(data2) (two buffers, or one receive buffer used twice):
+     p1 as it is after the second call, p2, both re-packed *)
+  | 1520 => ret (fun r => r)
+              (do o1 <- fac_from_raw (lst 0 a);
+               do o2 <- fac_from_raw (lst 1 a);
+               Ok (holder_state o1 ++ holder_state o2 ++ [res_bytes (holder_pack o1); res_bytes (holder_pack o2)]))
+  (* h = PduHolder(None); a history of operations on h *)
+  | 1521 => [0] :: holder_run None a
   | _ =>
     (* 1510 + k: p = <class k>(args); b = p.pack(); p2 = PduFactory.from_raw(b):
        class index of p2, p2 == p, p2.pack(), b *)
